@@ -38,6 +38,10 @@ MACROS = {
     'at_most_one_in': (['oj', 'S'],
                        'all(implies(oj[i] in S and oj[j] in S, i == j) for i in range(len(oj)) for j in range(len(oj)))'),
     'appended': (['oj', 'nj', 'x'], 'len(nj) == len(oj) + 1 and nj[len(oj)] == x and all(nj[i] == oj[i] for i in range(len(oj)))'),
+    # blk is the assignment block `name` that sets `var` and continues to `target`
+    'is_assign_to': (['blk', 'name', 'target', 'var'],
+                     'type(blk) is SyntheticAssignment and blk.name == name and blk._jump_targets == (target,) and len(blk.backedges) == 0'
+                     ' and var in blk.variable_assignment and all(w == var for w in blk.variable_assignment)'),
     'ib_plain': (['ob', 'nb'], 'implies(not isinstance(ob, SyntheticBranch), nb == replace(ob, _jump_targets=nb._jump_targets))'),
     'ib_branch': (['ob', 'nb'],
                   'implies(isinstance(ob, SyntheticBranch), nb == replace(ob, _jump_targets=nb._jump_targets,'
@@ -136,7 +140,17 @@ def runtime_namespace(extra=None):
     def var_name(kind, idx):
         return '__scfg_' + str(kind) + '_var_' + str(idx) + '__'
 
-    ns.update(block_name=block_name, region_name=region_name, var_name=var_name)
+    import re as _re
+
+    def gen_index(n):
+        m = _re.match(r'^.*_block_([0-9]+)$', str(n))
+        return int(m.group(1)) if m and str(int(m.group(1))) == m.group(1) else -1
+
+    def is_generated(n, kind):
+        m = _re.match(r'^(.*)_block_([0-9]+)$', str(n))
+        return bool(m) and m.group(1) == kind and str(int(m.group(2))) == m.group(2)
+
+    ns.update(block_name=block_name, region_name=region_name, var_name=var_name, gen_index=gen_index, is_generated=is_generated)
     ns.update(reach1=reach1, implies=implies, distinct=distinct, is_sorted=is_sorted, updated=updated, removed=removed,
               without=without, card=card, get=get, same_elements=same_elements, replace=dataclasses.replace)
     from numba_scfg.core.datastructures import basic_block as bb
